@@ -749,7 +749,7 @@ func (e *Engine) step(fr *frame, in ssa.Instruction) {
 		fr.env[in] = copyVal(e.get(fr, in.X).(Struct)[in.Field])
 	case *ssa.IndexAddr:
 		x := e.get(fr, in.X)
-		idx := e.get(fr, in.Index).(Term)
+		idx := idx64(in.Index, e.get(fr, in.Index).(Term))
 		switch x := x.(type) {
 		case *Value:
 			if x == nil {
@@ -768,7 +768,7 @@ func (e *Engine) step(fr *frame, in ssa.Instruction) {
 		}
 	case *ssa.Index:
 		x := e.get(fr, in.X)
-		idx := e.get(fr, in.Index).(Term)
+		idx := idx64(in.Index, e.get(fr, in.Index).(Term))
 		switch x := x.(type) {
 		case Array:
 			fr.env[in] = copyVal(x[e.index(idx, len(x))])
@@ -892,6 +892,18 @@ func (e *Engine) step(fr *frame, in ssa.Instruction) {
 
 func (e *Engine) goPanicStr(s string) {
 	panic(goPanic{Iface{T: types.Typ[types.String], V: "runtime error: " + s}})
+}
+
+// idx64 widens an index to 64 bits according to its Go type (an index of type uint8 with the top bit set is 128..255,
+// not a negative number)
+func idx64(v ssa.Value, t Term) Term {
+	if t.W >= 64 {
+		return t
+	}
+	if bt, ok := v.Type().Underlying().(*types.Basic); ok && bt.Info()&types.IsUnsigned != 0 {
+		return ZExt(t, 64)
+	}
+	return SExt(t, 64)
 }
 
 func (e *Engine) index(idx Term, n int) int {
@@ -1089,6 +1101,75 @@ type strIter struct {
 	i int
 }
 
+// decodeRuneSym decodes the UTF-8 sequence that starts at b[i] (i < len(b)) the way the language and unicode/utf8
+// define it, forking on the shape of the sequence when bytes are symbolic: an ill-formed or truncated sequence is
+// U+FFFD of width 1.
+func (e *Engine) decodeRuneSym(b []Term, i int) (Term, int) {
+	c := b[i]
+	if e.branch(Ult(c, BV(8, 0x80))) {
+		return ZExt(c, 32), 1
+	}
+	at := func(k int) (Term, bool) {
+		if i+k < len(b) {
+			return b[i+k], true
+		}
+		return Term{}, false
+	}
+	in := func(x Term, lo, hi Term) Term { return And(Ule(lo, x), Ule(x, hi)) }
+	k8 := func(v int64) Term { return BV(8, v) }
+	cont := func(x Term) Term { return in(x, k8(0x80), k8(0xBF)) }
+	low6 := func(x Term) Term { return ZExt(And(x, k8(0x3F)), 32) }
+	bad := BV(32, 0xFFFD)
+	switch {
+	case e.branch(in(c, k8(0xC2), k8(0xDF))):
+		b1, ok := at(1)
+		if !ok || !e.branch(cont(b1)) {
+			return bad, 1
+		}
+		return Or(Shl(ZExt(And(c, k8(0x1F)), 32), BV(32, 6)), low6(b1)), 2
+	case e.branch(in(c, k8(0xE0), k8(0xEF))):
+		b1, ok1 := at(1)
+		b2, ok2 := at(2)
+		if !ok1 || !ok2 {
+			// truncated: still ill-formed only if what is there cannot start a sequence; unicode/utf8 reports
+			// (RuneError, 1) for every short input
+			return bad, 1
+		}
+		lo := Ite(Eq(c, k8(0xE0)), k8(0xA0), k8(0x80))
+		hi := Ite(Eq(c, k8(0xED)), k8(0x9F), k8(0xBF))
+		if !e.branch(And(in(b1, lo, hi), cont(b2))) {
+			return bad, 1
+		}
+		return Or(Or(Shl(ZExt(And(c, k8(0x0F)), 32), BV(32, 12)), Shl(low6(b1), BV(32, 6))), low6(b2)), 3
+	case e.branch(in(c, k8(0xF0), k8(0xF4))):
+		b1, ok1 := at(1)
+		b2, ok2 := at(2)
+		b3, ok3 := at(3)
+		if !ok1 || !ok2 || !ok3 {
+			return bad, 1
+		}
+		lo := Ite(Eq(c, k8(0xF0)), k8(0x90), k8(0x80))
+		hi := Ite(Eq(c, k8(0xF4)), k8(0x8F), k8(0xBF))
+		if !e.branch(And(And(in(b1, lo, hi), cont(b2)), cont(b3))) {
+			return bad, 1
+		}
+		return Or(Or(Or(Shl(ZExt(And(c, k8(0x07)), 32), BV(32, 18)), Shl(low6(b1), BV(32, 12))), Shl(low6(b2), BV(32, 6))), low6(b3)), 4
+	}
+	return bad, 1
+}
+
+func init() {
+	dec := func(e *Engine, b []Term) Value {
+		if len(b) == 0 {
+			return Tuple{BV(32, 0xFFFD), BV(64, 0)}
+		}
+		r, sz := e.decodeRuneSym(b, 0)
+		return Tuple{r, BV(64, int64(sz))}
+	}
+	intrinsics["unicode/utf8.DecodeRuneInString"] = func(e *Engine, fr *frame, a []Value) Value { return dec(e, strBytes(a[0])) }
+	intrinsics["unicode/utf8.DecodeRune"] = func(e *Engine, fr *frame, a []Value) Value { return dec(e, sliceTerms(a[0])) }
+}
+
 func (e *Engine) next(in *ssa.Next, it Value) Value {
 	switch it := it.(type) {
 	case *mapIter:
@@ -1105,14 +1186,19 @@ func (e *Engine) next(in *ssa.Next, it Value) Value {
 			return Tuple{Bool(false), BV(64, 0), BV(32, 0)}
 		}
 		c := it.b[it.i]
-		if !c.IsConst() {
-			// ASCII assumption is not made: fork
-			if !e.branch(Ult(c, BV(8, 0x80))) {
-				unsupported("non-ASCII symbolic rune in range")
+		symbolic := !c.IsConst()
+		if !symbolic && c.C.Uint64() >= 0x80 { // concrete lead byte followed by symbolic continuation bytes
+			for j := it.i + 1; j < len(it.b) && j < it.i+4; j++ {
+				if !it.b[j].IsConst() {
+					symbolic = true
+				}
 			}
+		}
+		if symbolic {
 			i := it.i
-			it.i++
-			return Tuple{Bool(true), BV(64, int64(i)), ZExt(c, 32)}
+			r, sz := e.decodeRuneSym(it.b, i)
+			it.i += sz
+			return Tuple{Bool(true), BV(64, int64(i)), r}
 		}
 		// concrete: decode utf8 natively
 		buf := make([]byte, 0, 4)
